@@ -1,7 +1,253 @@
-//! C16 — not implemented yet (stub).
-use crate::engine::Args;
+//! C16 — resources return to baseline and admission limits are never exceeded (DESIGN §4 C16).
+//!
+//! Part (a), in-process: the worker's `SessionManager` (connection admission with hysteresis and
+//! per-(cluster, client IP) slots) driven by generated session histories against a multiset model.
+//! Part (b) (connection storms against a live worker) is a wire-lab check.
 
-pub fn run(_args: &Args) -> i32 {
-    println!("INCONCLUSIVE: C16 has no check yet");
-    2
+use std::{
+    collections::{BTreeMap, BTreeSet},
+    net::IpAddr,
+};
+
+use mio::Token;
+use proptest::prelude::*;
+use serde::{Deserialize, Serialize};
+use slab_shim::new_manager;
+use sozu_lib::server::SessionManager;
+
+use crate::engine::{self, Args, CaseReport, CheckResult, Evidence, pick_idx};
+
+mod slab_shim {
+    use std::{cell::RefCell, rc::Rc};
+
+    use sozu_lib::server::SessionManager;
+
+    pub fn new_manager(max_connections: usize, per_ip: u64) -> Rc<RefCell<SessionManager>> {
+        // the slab of sessions is only consulted for its length (at_capacity)
+        SessionManager::new(slab::Slab::new(), max_connections, per_ip, 60)
+    }
+}
+
+const CLUSTERS: &[&str] = &["ca", "cb", "cc"];
+const IPS: &[&str] = &["10.0.0.1", "10.0.0.2", "2001:db8::1"];
+
+#[derive(Clone, Debug, Serialize, Deserialize)]
+pub enum Op {
+    /// a client connects: admitted iff check_limits()
+    Accept,
+    /// session `i` (index among live sessions) asks for a backend of cluster c on behalf of ip
+    Request { session: u32, cluster: u8, ip: u8 },
+    /// session `i` closes
+    Close { session: u32 },
+    /// operator changes the global per-IP limit at runtime (0 disables)
+    SetGlobalLimit(u64),
+    /// cluster `c` gets / loses a per-cluster override (None = inherit)
+    SetOverride { cluster: u8, limit: Option<u64> },
+}
+
+#[derive(Clone, Debug, Serialize, Deserialize)]
+pub struct Case {
+    pub max_connections: usize,
+    pub per_ip: u64,
+    pub ops: Vec<Op>,
+    /// reproducer mode: do not exclude the known-finding shape (slots forgotten when the global
+    /// limit is set to 0 at runtime), fail with its signature
+    #[serde(default)]
+    pub strict: bool,
+}
+
+fn op() -> impl Strategy<Value = Op> {
+    prop_oneof![
+        5 => Just(Op::Accept),
+        8 => (any::<u32>(), 0u8..3, 0u8..3).prop_map(|(session, cluster, ip)| Op::Request { session, cluster, ip }),
+        4 => any::<u32>().prop_map(|session| Op::Close { session }),
+        1 => prop_oneof![Just(0u64), Just(1u64), Just(2u64), Just(3u64)].prop_map(Op::SetGlobalLimit),
+        1 => (0u8..3, proptest::option::of(prop_oneof![Just(0u64), Just(1u64), Just(2u64)])).prop_map(|(cluster, limit)| Op::SetOverride { cluster, limit }),
+    ]
+}
+
+pub fn strategy() -> impl Strategy<Value = Case> {
+    (prop_oneof![Just(1usize), Just(2usize), 3usize..12, Just(20usize)], 0u64..4, prop::collection::vec(op(), 1..80))
+        .prop_map(|(max_connections, per_ip, ops)| Case { max_connections, per_ip, ops, strict: false })
+}
+
+pub fn check(case: &Case) -> CheckResult {
+    let mut rep = CaseReport::default();
+    let mgr = new_manager(case.max_connections, case.per_ip);
+    let mut m = mgr.borrow_mut();
+    // model
+    let mut live: Vec<usize> = vec![]; // tokens of live sessions
+    let mut next_token = 1usize;
+    let mut attached: BTreeMap<usize, BTreeSet<(u8, u8)>> = BTreeMap::new(); // token -> (cluster, ip) slots held
+    let mut forgotten: BTreeMap<usize, BTreeSet<(u8, u8)>> = BTreeMap::new();
+    let mut overrides: BTreeMap<u8, u64> = BTreeMap::new();
+    let mut can_accept_model = true;
+    let mut refused_at_cap = false;
+    let mut per_ip_refusals = 0;
+    let mut limit_changes = 0;
+    let mut resumed = false;
+
+    for (step, op) in case.ops.iter().enumerate() {
+        match op {
+            Op::Accept => {
+                let admitted = m.check_limits();
+                let want = live.len() < case.max_connections;
+                if admitted != want {
+                    fail!(
+                        "C16/admission-verdict",
+                        "step {step}: {} live connections, max_connections {}: check_limits() = {admitted}",
+                        live.len(),
+                        case.max_connections
+                    );
+                }
+                if admitted {
+                    m.incr();
+                    live.push(next_token);
+                    next_token += 1;
+                } else {
+                    refused_at_cap = true;
+                    can_accept_model = false;
+                }
+                if m.can_accept != can_accept_model {
+                    fail!("C16/can-accept-flag", "step {step}: can_accept = {}, model says {can_accept_model}", m.can_accept);
+                }
+            }
+            Op::Close { session } => {
+                if live.is_empty() {
+                    continue;
+                }
+                let i = pick_idx(*session, live.len());
+                let tok = live.remove(i);
+                // a session's close path: release its per-IP slots, then its connection slot
+                m.untrack_all_cluster_ip(Token(tok));
+                m.decr();
+                attached.remove(&tok);
+                forgotten.remove(&tok);
+                if !can_accept_model && live.len() < case.max_connections * 90 / 100 {
+                    can_accept_model = true;
+                    resumed = true;
+                }
+                if m.can_accept != can_accept_model {
+                    fail!(
+                        "C16/accept-not-resumed",
+                        "step {step}: {} live of {} max: can_accept = {}, documented hysteresis (resume below 90%) says {can_accept_model}",
+                        live.len(),
+                        case.max_connections,
+                        m.can_accept
+                    );
+                }
+            }
+            Op::Request { session, cluster, ip } => {
+                if live.is_empty() {
+                    continue;
+                }
+                let tok = live[pick_idx(*session, live.len())];
+                let cid = CLUSTERS[*cluster as usize];
+                let ipaddr: IpAddr = IPS[*ip as usize].parse().unwrap();
+                let ov = overrides.get(cluster).copied();
+                let limit = ov.unwrap_or(m.max_connections_per_ip);
+                let holders = attached.values().filter(|s| s.contains(&(*cluster, *ip))).count() as u64;
+                let already = attached.get(&tok).map(|s| s.contains(&(*cluster, *ip))).unwrap_or(false);
+                let refused = m.cluster_ip_at_limit(Token(tok), cid, &ipaddr, ov);
+                // known finding: SetMaxConnectionsPerIp(0) wipes the slot table, so connections opened
+                // before it are not counted any more once a limit is in force again
+                let forgotten_holders = forgotten.values().filter(|s| s.contains(&(*cluster, *ip))).count() as u64;
+                let forgotten_self = forgotten.get(&tok).map(|s| s.contains(&(*cluster, *ip))).unwrap_or(false);
+                if case.strict && limit != 0 && !already && !forgotten_self && holders < limit && holders + forgotten_holders >= limit && !refused {
+                    fail!(
+                        "C16/per-ip-undercount-after-disable",
+                        "step {step}: session {tok} is admitted to cluster {cid} from {ipaddr}: limit in force {limit}, {holders} counted holders plus {forgotten_holders} live connections whose slots were wiped by an earlier SetMaxConnectionsPerIp(0)"
+                    );
+                }
+                if forgotten_holders > 0 && limit != 0 {
+                    rep.excluded_known += 1;
+                }
+                // the limit holds: a connection that does not hold a slot yet is refused when the
+                // slots of this (cluster, ip) are all taken; and only then
+                let want_refused = limit != 0 && !already && holders >= limit;
+                if refused != want_refused {
+                    let sig = if refused { "C16/per-ip-false-refusal" } else { "C16/per-ip-limit-exceeded" };
+                    fail!(
+                        sig,
+                        "step {step}: session {tok} asks for cluster {cid} from {ipaddr}: {holders} live sessions hold a slot there, limit in force {limit} (override {ov:?}), already holding: {already}; verdict refused = {refused}"
+                    );
+                }
+                if refused {
+                    per_ip_refusals += 1;
+                } else {
+                    m.track_cluster_ip(Token(tok), cid.to_string(), ipaddr);
+                    attached.entry(tok).or_default().insert((*cluster, *ip));
+                    if let Some(f) = forgotten.get_mut(&tok) {
+                        f.remove(&(*cluster, *ip));
+                    }
+                }
+            }
+            Op::SetGlobalLimit(n) => {
+                // what the worker does for SetMaxConnectionsPerIp (lib/src/server.rs)
+                m.max_connections_per_ip = *n;
+                if *n == 0 {
+                    m.clear_cluster_ip_tracking();
+                    // documented "clean slate": the model forgets the slots too (they are kept aside
+                    // to recognise the known finding); a session re-takes its slot on its next request
+                    for (tok, slots) in std::mem::take(&mut attached) {
+                        forgotten.entry(tok).or_default().extend(slots);
+                    }
+                }
+                limit_changes += 1;
+            }
+            Op::SetOverride { cluster, limit } => {
+                match limit {
+                    Some(l) => overrides.insert(*cluster, *l),
+                    None => overrides.remove(cluster),
+                };
+                limit_changes += 1;
+            }
+        }
+        if m.nb_connections != live.len() {
+            fail!("C16/connection-count-drift", "step {step}: nb_connections = {}, {} sessions are live", m.nb_connections, live.len());
+        }
+        if m.nb_connections > case.max_connections {
+            fail!("C16/max-connections-exceeded", "step {step}: {} connections, max {}", m.nb_connections, case.max_connections);
+        }
+    }
+    // everything ends: back to baseline
+    for tok in live.drain(..) {
+        m.untrack_all_cluster_ip(Token(tok));
+        m.decr();
+    }
+    if m.nb_connections != 0 {
+        fail!("C16/baseline-connections", "all sessions closed, nb_connections = {}", m.nb_connections);
+    }
+    // per-(cluster, ip) slots all released: a fresh session is admitted everywhere a limit >= 1 is in force
+    m.incr();
+    for (ci, c) in CLUSTERS.iter().enumerate() {
+        for ip in IPS {
+            let ov = overrides.get(&(ci as u8)).copied();
+            let limit = ov.unwrap_or(m.max_connections_per_ip);
+            if limit >= 1 && m.cluster_ip_at_limit(Token(999_999), c, &ip.parse().unwrap(), ov) {
+                fail!("C16/baseline-per-ip-slot", "all sessions closed but ({c}, {ip}) still counts as full (limit {limit})");
+            }
+        }
+    }
+    m.decr();
+
+    rep.nontrivial = refused_at_cap && (per_ip_refusals > 0 || limit_changes > 0);
+    rep.class_if(refused_at_cap, "refused_at_max_connections");
+    rep.class_if(resumed, "accept_resumed_below_90pct");
+    rep.class_if(per_ip_refusals > 0, "per_ip_refusal");
+    rep.class_if(limit_changes > 0, "limit_changed_at_runtime");
+    Ok(rep)
+}
+
+pub fn run(args: &Args) -> i32 {
+    let mut ev = Evidence::new(args, "exploration");
+    ev.rule(
+        "sessions",
+        "history of 1..80 ops on the worker's SessionManager (max_connections 1..20, global per-IP limit 0..3): Accept (admitted iff check_limits), Request(session, cluster, ip) through the per-(cluster, ip) gate exactly as the mux router and tcp sessions call it (cluster_ip_at_limit then track_cluster_ip), Close (untrack_all + decr), runtime SetMaxConnectionsPerIp (with the worker's clear-on-zero) and per-cluster overrides; model = live sessions and the slots each holds. Oracle: admission verdicts, connection count, can_accept hysteresis (refuse at max, resume below 90%), per-IP verdict == (slots taken >= limit in force) with no false refusals, everything back to zero after all sessions closed. Non-trivial: a refusal at max_connections and a per-IP refusal or a runtime limit change; distinct by case hash.",
+    );
+    ev.assume("only the SessionManager accounting is exercised here; gauges, buffers, slab entries and timers need a live worker (wire-lab part)");
+    ev.floor("sessions", "refused_at_max_connections", 0.2);
+    ev.floor("sessions", "per_ip_refusal", 0.1);
+    engine::run_pbt(&mut ev, args, "sessions", args.cases(60_000, 1_500_000), strategy, check);
+    ev.finish()
 }
